@@ -86,6 +86,15 @@ func (c *Ctx) Violate(prop, sig, what string, replay interface{}) {
 	}
 }
 
+// Suspect leaves a note on disk before a step that may take the whole process down (the service runs in this process): if
+// the process dies, the check finds the note and reports it as the violation, with the history as replay.  ClearSuspect
+// removes it when the step came back.
+func (c *Ctx) Suspect(prop, sig, what string, replay interface{}) {
+	b, _ := json.Marshal(Violation{prop, sig, what, replay})
+	_ = os.WriteFile(filepath.Join(c.Out, "suspect.json"), b, 0o644)
+}
+func (c *Ctx) ClearSuspect() { _ = os.Remove(filepath.Join(c.Out, "suspect.json")) }
+
 // WriteCases writes Gallina case shards: header imports, a list named `cases`
 // of type `ty`, and the mismatch evaluation with checker `chk`.
 func (c *Ctx) WriteCases(name, imports, ty, chk string, cases []string, shard int) {
